@@ -149,6 +149,10 @@ Definition spec_c12_batch (sel : list nat) : bool :=
   forallb (fun p => Nat.min (2 * n) (available n_genes marks p) <=? covered marks sel p) pairs.
 End SelK.
 
+(* views of a result used by the statements *)
+Definition kres_opt (r : kres) : option state := match r with KDone st => Some st | _ => None end.
+Definition kres_chosen (r : kres) : option (list nat) := option_map (fun st => chosen st) (kres_opt r).
+
 (* ---------------- wire ---------------- *)
 Definition of_kerr (e : kerr) : sx :=
   match e with
